@@ -203,3 +203,48 @@ def path_conditions(flow: Flow) -> PathConditions:
     if id(flow) not in _cache:
         _cache[id(flow)] = PathConditions(flow)
     return _cache[id(flow)]
+
+
+def rejection(pc: PathConditions, fact: Fact) -> set[str] | None:
+    """Exception class names raised when the test behind `fact` comes out the other way; None if that outcome can
+    still reach a normal return (the fact is then not a rejection guard)."""
+    cfg = pc.cfg
+    t = fact.test_node
+    st = cfg.ast[t]
+    # which labelled edge established the fact?  the fact holds on the 'true' edge iff split(test, True) yields it
+    est_true = any(e is fact.expr and p == fact.pol for e, p in split(st.test, True)) or \
+        any(ast.dump(e) == ast.dump(fact.expr) and p == fact.pol for e, p in split(st.test, True))
+    other = "false" if est_true else "true"
+    starts = cfg.branch_entry(t, other)
+    if not starts:
+        return None
+    names: set[str] = set()
+    for s in starts:
+        region = cfg.reachable(s, include_src=True)
+        if cfg.exit in region:
+            return None
+        for n in region:
+            r = cfg.ast[n]
+            if isinstance(r, ast.Raise) and r.exc is not None:
+                c = r.exc.func if isinstance(r.exc, ast.Call) else r.exc
+                names.add(dotted(c) or "?")
+    return names
+
+
+def guarded(flow: Flow, at: list, wants: list[tuple[str, Poly]], exc: str | None = "ValueError", **kw) -> tuple[bool, list[str]]:
+    """Every node in `at` executes only when each wanted relation (rel, p) holds, and failing it raises `exc`."""
+    pc = path_conditions(flow)
+    why: list[str] = []
+    if not at:
+        return False, ["no guarded effect found"]
+    for node in at:
+        for rel, p in wants:
+            f = pc.knows(node, rel, p, **kw)
+            if f is None:
+                why.append(f"`{p.canon()} {rel[:-1]} 0` is not established before line {getattr(node, 'lineno', '?')}")
+                continue
+            if exc is not None:
+                r = rejection(pc, f)
+                if r is None or exc not in r:
+                    why.append(f"violating `{f.text()}` does not raise {exc}")
+    return not why, why
